@@ -39,6 +39,8 @@ def make_enum(eid, name, n, placement, kinds=KINDS, generics='', derives=('EnumI
         e.variants.append(v)
     if generics in ('ty', 'where') and not unit_only:
         e.variants.append(VSpec(ident='GenT', kind='tuple', ftypes=['T']))
+    elif generics == 'ty_nd' and not unit_only:
+        e.variants.append(VSpec(ident='GenNd', kind='tuple', ftypes=['OptT']))
     elif generics == 'const' and not unit_only:
         e.variants.append(VSpec(ident='GenCg', kind='tuple', ftypes=['Cg']))
     e.extra['shape'] = 'n=%d placement=%s gen=%s unit_only=%s' % (n, placement, generics, unit_only)
